@@ -475,6 +475,8 @@ class CFG:
         for t in self.live_nodes():
             if t.kind != "test" or not isinstance(t.stmt, ast.If) or t.true_succ is None or t is n:
                 continue
+            if not self.dominates(t, n):
+                continue
             tr = self._region([t.true_succ], t)
             others = [s for s in t.succ if s is not t.true_succ and s.id not in t.exc_succ]
             if t.false_succ is not None:
@@ -552,6 +554,10 @@ class CFG:
             elif isinstance(s, ast.Delete):
                 for t in s.targets:
                     out += self.target_keys(t)
+            elif isinstance(s, ast.Expr) and isinstance(s.value, ast.Call) and isinstance(s.value.func, ast.Attribute) \
+                    and s.value.func.attr in ("append", "extend", "insert", "add", "update", "appendleft") \
+                    and isinstance(s.value.func.value, ast.Name):
+                out.append((s.value.func.value.id, False))
         elif n.kind == "for":
             out += self.target_keys(s.target)  # type: ignore[attr-defined]
         elif n.kind == "with":
@@ -661,6 +667,7 @@ def _match_target(t: ast.AST, value: Optional[ast.AST], key: str) -> Optional[as
         for i, te in enumerate(t.elts):
             sub = ast.Subscript(value=value, slice=ast.Constant(value=i), ctx=ast.Load())
             ast.copy_location(sub, value)
+            sub._unpack_len = len(t.elts)  # type: ignore[attr-defined]
             r = _match_target(te, sub, key)
             if r is not None:
                 return r
